@@ -2004,3 +2004,370 @@ Print Assumptions info_conf.
 Print Assumptions info_prod_partial.
 Print Assumptions info_prod_refuted.
 Print Assumptions updated_flag.
+
+(* ====================================================================================================================== *)
+(* Part 4 (C13 for the device list, finding D-20): the request pacing depends on elapsed time only.
+   A simulation between two runs of the model whose clocks differ by a constant c modulo 2^32: the states agree in everything but the
+   stored times, which differ by c (a request time only where its request counter is not 0). *)
+(* ---------- times modulo 2^32 ---------- *)
+Definition cong (c a a':Z) : Prop := (a' - a - c) mod two32 = 0.
+Lemma cong_k c a a' : cong c a a' -> exists k, a' = a + c + k * two32.
+Proof. unfold cong, two32. intros H. exists ((a' - a - c) / 4294967296). pose proof (Z_div_mod_eq_full (a' - a - c) 4294967296). lia. Qed.
+Lemma has_elapsed_cong c s s' el n n' : cong c s s' -> cong c n n' -> has_elapsed s' el n' = has_elapsed s el n.
+Proof.
+  intros Hs Hn. destruct (cong_k _ _ _ Hs) as (k1 & ->). destruct (cong_k _ _ _ Hn) as (k2 & ->). unfold has_elapsed. f_equal.
+  replace (n + c + k2 * two32 - (s + c + k1 * two32 + el)) with (n - (s + el) + (k2 - k1) * two32) by ring. apply Z_mod_plus_full.
+Qed.
+Lemma cong_shift c now : cong c now ((now + c) mod two32).
+Proof.
+  unfold cong, two32. pose proof (Z_div_mod_eq_full (now + c) 4294967296).
+  replace ((now + c) mod 4294967296 - now - c) with ((- ((now + c) / 4294967296)) * 4294967296) by lia. apply Z_mod_mult.
+Qed.
+
+(* ---------- entries that differ in their times only ---------- *)
+Definition retime (e:entry) (ct lm pr cr gr:Z) : entry :=
+  {| e_name := e_name e; e_src := e_src e; e_ctime := ct; e_pil := e_pil e; e_pi := e_pi e; e_cil := e_cil e; e_confi := e_confi e;
+     e_man := e_man e; e_d1 := e_d1 e; e_d2 := e_d2 e; e_tx := e_tx e; e_rx := e_rx e; e_nname := e_nname e; e_pireq := pr;
+     e_npi := e_npi e; e_cireq := cr; e_nci := e_nci e; e_pgreq := gr; e_npg := e_npg e; e_lmt := lm |}.
+Definition Re (c:Z) (e e':entry) : Prop :=
+  exists ct lm pr cr gr, e' = retime e ct lm pr cr gr /\ cong c (e_ctime e) ct /\ cong c (e_lmt e) lm /\
+    (e_npi e = 0 \/ cong c (e_pireq e) pr) /\ (e_nci e = 0 \/ cong c (e_cireq e) cr) /\ (e_npg e = 0 \/ cong c (e_pgreq e) gr).
+Ltac re_destruct H := destruct H as (?ct & ?lm & ?pr & ?cr & ?gr & -> & ?Hct & ?Hlm & ?Hpr & ?Hcr & ?Hgr).
+Ltac re_intro := eexists _, _, _, _, _; split; [reflexivity|cbn [retime e_ctime e_lmt e_pireq e_cireq e_pgreq e_npi e_nci e_npg with_src with_name with_pi with_conf with_lists with_req new_entry]].
+
+Lemma Re_with_src c e e' s : Re c e e' -> Re c (with_src e s) (with_src e' s).
+Proof. intros H. re_destruct H. re_intro. auto. Qed.
+Lemma Re_with_name c e e' n : Re c e e' -> Re c (with_name e n) (with_name e' n).
+Proof. intros H. re_destruct H. re_intro. auto. Qed.
+Lemma Re_with_conf c e e' l b m d1 d2 : Re c e e' -> Re c (with_conf e l b m d1 d2) (with_conf e' l b m d1 d2).
+Proof. intros H. re_destruct H. re_intro. auto. Qed.
+Lemma Re_with_lists c e e' a b : Re c e e' -> Re c (with_lists e a b) (with_lists e' a b).
+Proof. intros H. re_destruct H. re_intro. auto. Qed.
+Lemma Re_with_pi c e e' l p rq rq' n : Re c e e' -> (n = 0 \/ cong c rq rq') -> Re c (with_pi e l p rq n) (with_pi e' l p rq' n).
+Proof. intros H Hq. re_destruct H. re_intro. auto. Qed.
+Lemma Re_with_req c e e' nn cr0 cr0' nc gr0 gr0' ng lm0 lm0' : Re c e e' -> (nc = 0 \/ cong c cr0 cr0') -> (ng = 0 \/ cong c gr0 gr0') -> cong c lm0 lm0' ->
+  Re c (with_req e nn cr0 nc gr0 ng lm0) (with_req e' nn cr0' nc gr0' ng lm0').
+Proof. intros H H1 H2 H3. re_destruct H. re_intro. auto. Qed.
+Lemma Re_new c n now now' : cong c now now' -> Re c (new_entry n now) (new_entry n now').
+Proof. intros H. exists now', now', 0, 0, 0. split; [reflexivity|]. cbn [new_entry e_ctime e_lmt e_npi e_nci e_npg e_pireq e_cireq e_pgreq]. repeat split; auto. Qed.
+Lemma Re_clear c e e' : Re c e e' -> Re c (clear_pi_loaded e) (clear_pi_loaded e').
+Proof. intros H. unfold clear_pi_loaded. pose proof H as H0. re_destruct H0. cbn [retime e_pi]. apply Re_with_pi; [exact H|auto]. Qed.
+
+(* ---------- results ---------- *)
+Definition Rres {A} (R:A -> A -> Prop) (r r':res A) : Prop :=
+  match r, r' with Ok a, Ok a' => R a a' | OOB, OOB => True | Fuel, Fuel => True | _, _ => False end.
+Lemma bind_rel {A B} (RA:A -> A -> Prop) (RB:B -> B -> Prop) r r' f f' :
+  Rres RA r r' -> (forall a a', RA a a' -> Rres RB (f a) (f' a')) -> Rres RB (bind r f) (bind r' f').
+Proof. intros H Hf. destruct r, r'; cbn in *; try contradiction; auto. Qed.
+Lemma Rres_eq {A} (r r':res A) : Rres eq r r' -> r' = r.
+Proof. destruct r, r'; cbn; try contradiction; congruence. Qed.
+Lemma Rres_refl {A} (r:res A) : Rres eq r r.
+Proof. destruct r; cbn; auto. Qed.
+
+(* ---------- states ---------- *)
+Definition Ro (c:Z) (o o':option entry) : Prop :=
+  match o, o' with None, None => True | Some e, Some e' => Re c e e' | _, _ => False end.
+Definition Rs (c:Z) (st st':state) : Prop :=
+  sources st' = sources st /\ maxdev st' = maxdev st /\ updated st' = updated st /\ pending st' = pending st /\ Forall2 (Ro c) (heap st) (heap st').
+Definition Rp (c:Z) (p p':state * list req) : Prop := Rs c (fst p) (fst p') /\ snd p' = snd p.
+
+Lemma Forall2_nth {A} (R:A -> A -> Prop) l l' n : Forall2 R l l' ->
+  match nth_error l n, nth_error l' n with Some a, Some b => R a b | None, None => True | _, _ => False end.
+Proof. intros H. revert n. induction H; intros [|n]; cbn; auto. apply IHForall2. Qed.
+Lemma Forall2_set_nth {A} (R:A -> A -> Prop) l l' n v v' : Forall2 R l l' -> R v v' -> Forall2 R (set_nth l n v) (set_nth l' n v').
+Proof. intros H Hv. revert n. induction H; intros [|n]; cbn [set_nth]; constructor; auto. Qed.
+
+Lemma Forall2_len {A} (R:A -> A -> Prop) l l' : Forall2 R l l' -> length l' = length l.
+Proof. intros H. induction H; cbn; auto. Qed.
+Lemma Rs_init c : Rs c init_state init_state.
+Proof. repeat split; constructor. Qed.
+Lemma Rs_flags c st st' u p : Rs c st st' -> Rs c (with_flags st u p) (with_flags st' u p).
+Proof. intros (H1 & H2 & H3 & H4 & H5). repeat split; assumption. Qed.
+Lemma Rs_flags2 c st st' u u' p p' : Rs c st st' -> u' = u -> p' = p -> Rs c (with_flags st u p) (with_flags st' u' p').
+Proof. intros H -> ->. apply Rs_flags. exact H. Qed.
+Lemma Rs_maxdev c st st' mx : Rs c st st' -> Rs c (with_hs st (heap st) (sources st) mx) (with_hs st' (heap st') (sources st') mx).
+Proof. intros (H1 & H2 & H3 & H4 & H5). repeat split; assumption. Qed.
+
+Lemma src_get_rel c st st' i : Rs c st st' -> src_get st' i = src_get st i.
+Proof. intros (H1 & _). unfold src_get. rewrite H1. reflexivity. Qed.
+Lemma deref_rel c st st' oid : Rs c st st' -> Rres (Re c) (deref st oid) (deref st' oid).
+Proof.
+  intros (_ & _ & _ & _ & H). unfold deref. pose proof (Forall2_nth _ _ _ oid H) as Hn.
+  destruct (nth_error (heap st) oid) as [[e|]|], (nth_error (heap st') oid) as [[e'|]|]; cbn in *; try contradiction; auto.
+Qed.
+Lemma update_rel c st st' oid e e' : Rs c st st' -> Re c e e' -> Rres (Rs c) (update st oid e) (update st' oid e').
+Proof.
+  intros (H1 & H2 & H3 & H4 & H) He. unfold update. pose proof (Forall2_nth _ _ _ oid H) as Hn.
+  destruct (nth_error (heap st) oid) as [[x|]|], (nth_error (heap st') oid) as [[x'|]|]; cbn in *; try contradiction; auto.
+  repeat split; try assumption. apply Forall2_set_nth; [exact H|exact He].
+Qed.
+Lemma free_rel c st st' oid : Rs c st st' -> Rres (Rs c) (free st oid) (free st' oid).
+Proof.
+  intros (H1 & H2 & H3 & H4 & H). unfold free. pose proof (Forall2_nth _ _ _ oid H) as Hn.
+  destruct (nth_error (heap st) oid) as [[x|]|], (nth_error (heap st') oid) as [[x'|]|]; cbn in *; try contradiction; auto.
+  repeat split; try assumption. apply Forall2_set_nth; [exact H|exact I].
+Qed.
+Lemma src_set_rel c st st' i v : Rs c st st' -> Rres (Rs c) (src_set st i v) (src_set st' i v).
+Proof.
+  intros (H1 & H2 & H3 & H4 & H). unfold src_set. destruct (src_ok i); cbn; [|exact I]. repeat split; cbn; try assumption. rewrite H1. reflexivity.
+Qed.
+Lemma alloc_rel c st st' e e' : Rs c st st' -> Re c e e' -> Rs c (fst (alloc st e)) (fst (alloc st' e')) /\ snd (alloc st' e') = snd (alloc st e).
+Proof.
+  intros (H1 & H2 & H3 & H4 & H) He. split; [|cbn; eapply Forall2_len; eauto].
+  repeat split; cbn; try assumption. apply Forall2_app; [exact H|]. constructor; [exact He|constructor].
+Qed.
+
+Lemma save_device_rel c st st' oid s : Rs c st st' -> Rres (Rs c) (save_device st oid s) (save_device st' oid s).
+Proof.
+  intros H. unfold save_device. destruct (s >=? MaxBus); [exact H|].
+  apply (bind_rel (Re c)); [apply deref_rel; exact H|]. intros e e' He.
+  apply (bind_rel (Rs c)); [apply update_rel; [exact H|apply Re_with_src; exact He]|]. intros st1 st1' H1.
+  apply (bind_rel (Rs c)); [apply src_set_rel; exact H1|]. intros st2 st2' H2. cbn.
+  pose proof H2 as (_ & Hm & _). rewrite Hm. destruct (s >=? maxdev st2); [apply Rs_maxdev; exact H2|exact H2].
+Qed.
+
+Lemma Re_name c e e' : Re c e e' -> e_name e' = e_name e /\ e_src e' = e_src e.
+Proof. intros H. re_destruct H. auto. Qed.
+
+Lemma fbn_rel c st st' name : Rs c st st' -> forall fuel i, Rres eq (fbn st name fuel i) (fbn st' name fuel i).
+Proof.
+  intros H. induction fuel as [|fuel IH]; intros i; cbn [fbn]; [exact I|]. pose proof H as (_ & Hm & _). rewrite Hm.
+  destruct (i >=? maxdev st); [reflexivity|]. rewrite (src_get_rel _ _ _ i H). destruct (src_get st i) as [[oid|]| |]; cbn [bind]; try exact I; [|apply IH].
+  apply (bind_rel (Re c)); [apply deref_rel; exact H|]. intros e e' He. destruct (Re_name _ _ _ He) as (-> & _).
+  destruct (e_name e =? name); [reflexivity|apply IH].
+Qed.
+Lemma find_by_name_rel c st st' name : Rs c st st' -> find_by_name st' name = find_by_name st name.
+Proof. intros H. apply Rres_eq. unfold find_by_name. exact (fbn_rel c st st' name H 300%nat 0). Qed.
+
+(* ---------- the handlers ---------- *)
+Lemma claim_finish_rel c st st' oid rq : Rs c st st' -> Rres (Rp c) (claim_finish st oid rq) (claim_finish st' oid rq).
+Proof.
+  intros H. unfold claim_finish. apply (bind_rel (Re c)); [apply deref_rel; exact H|]. intros e e' He.
+  apply (bind_rel (Rs c)); [apply update_rel; [exact H|apply Re_clear; exact He]|]. intros st1 st1' H1. split; [apply Rs_flags; exact H1|reflexivity].
+Qed.
+
+Lemma claim_place_rel c now now' st st' s cn rq : Rs c st st' -> cong c now now' ->
+  Rres (Rp c) (claim_place now st s cn rq) (claim_place now' st' s cn rq).
+Proof.
+  intros H Hn. unfold claim_place. rewrite (find_by_name_rel _ _ _ cn H). destruct (find_by_name st cn) as [[oid|]| |]; cbn [bind]; try exact I.
+  - apply (bind_rel (Re c)); [apply deref_rel; exact H|]. intros e e' He. destruct (Re_name _ _ _ He) as (_ & ->).
+    apply (bind_rel (Rs c)); [apply src_set_rel; exact H|]. intros st1 st1' H1.
+    apply (bind_rel (Rs c)); [apply save_device_rel; exact H1|]. intros st2 st2' H2. apply claim_finish_rel. exact H2.
+  - destruct (alloc_rel c st st' (new_entry cn now) (new_entry cn now') H (Re_new _ _ _ _ Hn)) as (Ha & Ho).
+    destruct (alloc st (new_entry cn now)) as [st1 oid]. destruct (alloc st' (new_entry cn now')) as [st1' oid']. cbn [fst snd] in Ha, Ho. subst oid'.
+    apply (bind_rel (Rs c)); [apply save_device_rel; exact Ha|]. intros st2 st2' H2. apply claim_finish_rel. exact H2.
+Qed.
+
+Lemma Rs_sources c st st' : Rs c st st' -> sources st' = sources st.
+Proof. intros (H & _). exact H. Qed.
+Lemma Rs_pending c st st' : Rs c st st' -> pending st' = pending st /\ updated st' = updated st.
+Proof. intros (_ & _ & H1 & H2 & _). auto. Qed.
+
+Lemma handle_claim_rel c now now' ok m st st' : Rs c st st' -> cong c now now' ->
+  Rres (Rp c) (handle_claim now ok m st) (handle_claim now' ok m st').
+Proof.
+  intros H Hn. unfold handle_claim. rewrite (src_get_rel _ _ _ (b_src m) H).
+  destruct (src_get st (b_src m)) as [[oid|]| |]; cbn [bind]; try exact I; [|apply claim_place_rel; assumption].
+  apply (bind_rel (Re c)); [apply deref_rel; exact H|]. intros e e' He. destruct (Re_name _ _ _ He) as (Hname & _). rewrite Hname.
+  assert (Hset : Rres (Rp c)
+     (st1 <- update st oid (with_name e (claim_name m)) ;; claim_finish (with_flags st1 true (pending st1)) oid [])
+     (st1 <- update st' oid (with_name e' (claim_name m)) ;; claim_finish (with_flags st1 true (pending st1)) oid [])).
+  { apply (bind_rel (Rs c)); [apply update_rel; [exact H|apply Re_with_name; exact He]|]. intros st1 st1' H1. apply claim_finish_rel.
+    apply Rs_flags2; [exact H1|reflexivity|apply (Rs_pending _ _ _ H1)]. }
+  destruct (e_name e =? 0).
+  - rewrite (find_by_name_rel _ _ _ _ H). destruct (find_by_name st (claim_name m)) as [[oid2|]| |]; cbn [bind]; try exact I; [|exact Hset].
+    destruct (Nat.eqb oid2 oid); [exact Hset|].
+    apply (bind_rel (Rs c)); [apply free_rel; exact H|]. intros st1 st1' H1.
+    apply (bind_rel (Re c)); [apply deref_rel; exact H1|]. intros e2 e2' He2. destruct (Re_name _ _ _ He2) as (_ & ->).
+    apply (bind_rel (Rs c)); [apply src_set_rel; exact H1|]. intros st2 st2' H2.
+    apply (bind_rel (Rs c)); [apply save_device_rel; exact H2|]. intros st3 st3' H3. apply claim_finish_rel. exact H3.
+  - destruct (negb (e_name e =? claim_name m)); [|split; [exact H|reflexivity]].
+    rewrite (Rs_sources _ _ _ H).
+    apply (bind_rel (Rp c)).
+    + destruct (first_none (sources st) 0 <? MaxBus).
+      * apply (bind_rel (Rs c)); [apply save_device_rel; exact H|]. intros st1 st1' H1. split; [exact H1|reflexivity].
+      * apply (bind_rel (Rs c)); [apply free_rel; exact H|]. intros st1 st1' H1. split; [exact H1|reflexivity].
+    + intros [st1 rq] [st1' rq'] (H1 & Hrq). cbn [fst snd] in H1, Hrq. subst rq'.
+      apply (bind_rel (Rs c)); [apply src_set_rel; exact H1|]. intros st2 st2' H2. apply claim_place_rel; assumption.
+Qed.
+
+Lemma handle_prod_rel c m st st' : Rs c st st' -> Rres (Rs c) (handle_prod m st) (handle_prod m st').
+Proof.
+  intros H. unfold handle_prod. rewrite (src_get_rel _ _ _ (b_src m) H).
+  destruct (src_get st (b_src m)) as [[oid|]| |]; cbn [bind]; try exact I; [|exact H].
+  apply (bind_rel (Re c)); [apply deref_rel; exact H|]. intros e e' He. pose proof He as He0. re_destruct He0. cbn [retime e_pil e_pi e_pireq e_npi].
+  destruct (e_pil e); [exact H|]. destruct (parse_pi m) as [raw|]; [|exact H].
+  destruct (pi_same raw (e_pi e)).
+  - apply update_rel; [exact H|]. apply (Re_with_pi c e _ true (e_pi e) (e_pireq e) pr (e_npi e) He). exact Hpr.
+  - apply (bind_rel (Rs c)); [apply update_rel; [exact H|apply (Re_with_pi c e _ true (pi_norm raw) (e_pireq e) pr (e_npi e) He); exact Hpr]|].
+    intros st1 st1' H1. apply Rs_flags2; [exact H1|reflexivity|apply (Rs_pending _ _ _ H1)].
+Qed.
+
+Lemma init_conf_rel c e e' a b d : Re c e e' -> Rres (Re c) (init_conf e a b d) (init_conf e' a b d).
+Proof.
+  intros He. pose proof He as He0. re_destruct He0. unfold init_conf. cbn [retime e_confi].
+  set (buf := match match e_confi e with Some b0 => if Z.of_nat (length b0) <? (a + b + d) mod 65536 then None else Some b0 | None => None end with
+              | Some b0 => Some b0 | None => if (a + b + d) mod 65536 >? 0 then Some (repeat 0 (Z.to_nat ((a + b + d) mod 65536))) else None end).
+  match goal with |- Rres _ (bind ?X _) (bind ?X _) => destruct X as [r1| |]; cbn [bind]; try exact I end.
+  match goal with |- Rres _ (bind ?X _) (bind ?X _) => destruct X as [r2| |]; cbn [bind]; try exact I end.
+  match goal with |- Rres _ (bind ?X _) (bind ?X _) => destruct X as [r3| |]; cbn [bind]; try exact I end.
+  apply Re_with_conf. exact He.
+Qed.
+
+Lemma handle_conf_rel c m st st' : Rs c st st' -> Rres (Rs c) (handle_conf m st) (handle_conf m st').
+Proof.
+  intros H. unfold handle_conf. rewrite (src_get_rel _ _ _ (b_src m) H).
+  destruct (src_get st (b_src m)) as [[oid|]| |]; cbn [bind]; try exact I; [|exact H].
+  apply (bind_rel (Re c)); [apply deref_rel; exact H|]. intros e e' He.
+  destruct (measure_conf (tmsg m)) as [[[[m0 a0] b0]|]| |]; cbn [bind]; try exact I; [|exact H].
+  apply (bind_rel (Re c)); [apply init_conf_rel; exact He|]. intros e1 e1' He1.
+  assert (Hfin : forall e2 e2', Re c e2 e2' ->
+     Rres (Rs c) (st1 <- update st oid e2 ;; Ok (with_flags st1 true (pending st1))) (st1 <- update st' oid e2' ;; Ok (with_flags st1 true (pending st1)))).
+  { intros e2 e2' He2. apply (bind_rel (Rs c)); [apply update_rel; assumption|]. intros st1 st1' H1.
+    apply Rs_flags2; [exact H1|reflexivity|apply (Rs_pending _ _ _ H1)]. }
+  apply (bind_rel (Re c)); [|intros e2 e2' He2; apply Hfin; exact He2].
+  pose proof He1 as He10. re_destruct He10. cbn [retime e_confi e_man e_d1 e_d2].
+  match goal with |- Rres _ (if ?b then _ else _) (if ?b then _ else _) => destruct b; [|exact He1] end.
+  match goal with |- Rres _ (bind ?X _) (bind ?X _) => destruct X as [[[ok1 i1] c1]| |]; cbn [bind]; try exact I end.
+  destruct (negb ok1); [apply Re_with_conf; exact He1|].
+  match goal with |- Rres _ (bind ?X _) (bind ?X _) => destruct X as [[[ok2 i2] c2]| |]; cbn [bind]; try exact I end.
+  destruct (negb ok2); [apply Re_with_conf; exact He1|].
+  match goal with |- Rres _ (bind ?X _) (bind ?X _) => destruct X as [[[ok3 i3] c3]| |]; cbn [bind]; try exact I end.
+  apply Re_with_conf. exact He1.
+Qed.
+
+Lemma handle_list_rel c m st st' : Rs c st st' -> Rres (Rs c) (handle_list m st) (handle_list m st').
+Proof.
+  intros H. unfold handle_list. rewrite (src_get_rel _ _ _ (b_src m) H).
+  destruct (src_get st (b_src m)) as [[oid|]| |]; cbn [bind]; try exact I; [|exact H].
+  apply (bind_rel (Re c)); [apply deref_rel; exact H|]. intros e e' He.
+  destruct (if 0 <? dlen m then (znth (pl m) 0 0, 1) else (255, 0)) as [kind idx].
+  apply (bind_rel (Re c)).
+  - pose proof He as He0. re_destruct He0. cbn [retime e_tx e_rx].
+    destruct (kind =? 0).
+    + match goal with |- Rres _ (bind ?X _) (bind ?X _) => destruct X as [l| |]; cbn [bind]; try exact I end. apply Re_with_lists. exact He.
+    + destruct (kind =? 1); [|exact He].
+      match goal with |- Rres _ (bind ?X _) (bind ?X _) => destruct X as [l| |]; cbn [bind]; try exact I end. apply Re_with_lists. exact He.
+  - intros e1 e1' He1. apply (bind_rel (Rs c)); [apply update_rel; assumption|]. intros st1 st1' H1.
+    apply Rs_flags2; [exact H1|reflexivity|apply (Rs_pending _ _ _ H1)].
+Qed.
+
+(* the readiness tests and the marks of the request loops *)
+Lemma ready_pi_rel c now now' e e' : cong c now now' -> Re c e e' -> ready_pi now' e' = ready_pi now e /\ should_pi e' = should_pi e /\ Re c (mark_pi now e) (mark_pi now' e').
+Proof.
+  intros Hn He. pose proof He as He0. re_destruct He0. unfold ready_pi, should_pi, mark_pi. cbn [retime e_pil e_npi e_pireq e_ctime e_pi].
+  split; [|split; [reflexivity|]].
+  - rewrite (has_elapsed_cong c (e_ctime e) ct 1000 now now' Hct Hn). destruct Hpr as [H0|Hp].
+    + rewrite H0. reflexivity.
+    + rewrite (has_elapsed_cong c (e_pireq e) pr 1000 now now' Hp Hn). reflexivity.
+  - apply (Re_with_pi c e _ (e_pil e) (e_pi e) now now' (e_npi e + 1) He). right. exact Hn.
+Qed.
+Lemma ready_ci_rel c now now' e e' : cong c now now' -> Re c e e' -> ready_ci now' e' = ready_ci now e /\ should_ci e' = should_ci e /\ Re c (mark_ci now e) (mark_ci now' e').
+Proof.
+  intros Hn He. pose proof He as He0. re_destruct He0. unfold ready_ci, should_ci, mark_ci. cbn [retime e_cil e_nci e_cireq e_ctime e_nname e_pgreq e_npg e_lmt].
+  split; [|split; [reflexivity|]].
+  - rewrite (has_elapsed_cong c (e_ctime e) ct 1000 now now' Hct Hn). destruct Hcr as [H0|Hp].
+    + rewrite H0. reflexivity.
+    + rewrite (has_elapsed_cong c (e_cireq e) cr 1000 now now' Hp Hn). reflexivity.
+  - apply (Re_with_req c e _ (e_nname e) now now' (e_nci e + 1) (e_pgreq e) gr (e_npg e) (e_lmt e) lm He); auto.
+Qed.
+Lemma ready_pg_rel c now now' e e' : cong c now now' -> Re c e e' -> ready_pg now' e' = ready_pg now e /\ should_pg e' = should_pg e /\ Re c (mark_pg now e) (mark_pg now' e').
+Proof.
+  intros Hn He. pose proof He as He0. re_destruct He0. unfold ready_pg, should_pg, mark_pg. cbn [retime e_tx e_rx e_npg e_pgreq e_ctime e_nname e_cireq e_nci e_lmt].
+  split; [|split; [reflexivity|]].
+  - rewrite (has_elapsed_cong c (e_ctime e) ct 1000 now now' Hct Hn). destruct Hgr as [H0|Hp].
+    + rewrite H0. reflexivity.
+    + rewrite (has_elapsed_cong c (e_pgreq e) gr 1000 now now' Hp Hn). reflexivity.
+  - apply (Re_with_req c e _ (e_nname e) (e_cireq e) cr (e_nci e) now now' (e_npg e + 1) (e_lmt e) lm He); auto.
+Qed.
+
+Definition R4 (c:Z) (x x':state * list req * bool * bool) : Prop :=
+  match x, x' with (st, rq, ret, p), (st', rq', ret', p') => Rs c st st' /\ rq' = rq /\ ret' = ret /\ p' = p end.
+Lemma scan_req_rel c ready ready' should should' mark mark' pgn ok :
+  (forall e e', Re c e e' -> ready' e' = ready e /\ should' e' = should e /\ Re c (mark e) (mark' e')) ->
+  forall fuel st st' i pend, Rs c st st' ->
+    Rres (R4 c) (scan_req ready should mark pgn ok st fuel i pend) (scan_req ready' should' mark' pgn ok st' fuel i pend).
+Proof.
+  intros Hr. induction fuel as [|fuel IH]; intros st st' i pend H; cbn [scan_req]; [exact I|]. pose proof H as (_ & Hm & _). rewrite Hm.
+  destruct (i >=? maxdev st); [cbn; auto|]. rewrite (src_get_rel _ _ _ i H). destruct (src_get st i) as [[oid|]| |]; cbn [bind]; try exact I; [|apply IH; exact H].
+  apply (bind_rel (Re c)); [apply deref_rel; exact H|]. intros e e' He. destruct (Hr e e' He) as (-> & -> & Hmk). destruct (Re_name _ _ _ He) as (_ & Hs).
+  destruct (ready e); [|apply IH; exact H]. destruct ok; [|apply IH; exact H].
+  apply (bind_rel (Rs c)); [apply update_rel; assumption|]. intros st1 st1' H1. cbn. rewrite Hs. auto.
+Qed.
+
+Lemma handle_other_rel c now now' ok m st st' : Rs c st st' -> cong c now now' -> Rres (Rp c) (handle_other now ok m st) (handle_other now' ok m st').
+Proof.
+  intros H Hn. unfold handle_other. destruct (Rs_pending _ _ _ H) as (-> & _). destruct (negb (pending st)); [split; [exact H|reflexivity]|].
+  rewrite (src_get_rel _ _ _ (b_src m) H). destruct (src_get st (b_src m)) as [[oid|]| |]; cbn [bind]; try exact I.
+  apply (bind_rel (Re c)); [apply deref_rel; exact H|]. intros e e' He.
+  apply (bind_rel (fun x x' : state * list req * bool => Rs c (fst (fst x)) (fst (fst x')) /\ snd (fst x') = snd (fst x) /\ snd x' = snd x)).
+  { pose proof He as He0. re_destruct He0. cbn [retime e_name e_nname e_cireq e_nci e_pgreq e_npg e_lmt].
+    destruct ((e_name e =? 0) && (e_nname e <? 20) && ok); [|cbn; auto].
+    apply (bind_rel (Rs c)); [|intros st1 st1' H1; cbn; auto]. apply update_rel; [exact H|].
+    apply (Re_with_req c e _ ((e_nname e + 1) mod 256) (e_cireq e) cr (e_nci e) (e_pgreq e) gr (e_npg e) (e_lmt e) lm He); auto. }
+  intros [[st1 rq0] p0] [[st1' rq0'] p0'] (H1 & Hq & Hp). cbn [fst snd] in H1, Hq, Hp. subst rq0' p0'.
+  apply (bind_rel (R4 c)); [apply scan_req_rel; [intros x x' Hx; apply ready_pi_rel; assumption|exact H1]|].
+  intros [[[st2 rq1] ret1] p1] [[[st2' rq1'] ret1'] p1'] (H2 & -> & -> & ->).
+  destruct (ret1 || p1); [split; [apply Rs_flags2; [exact H2|apply (Rs_pending _ _ _ H2)|reflexivity]|reflexivity]|].
+  apply (bind_rel (R4 c)); [apply scan_req_rel; [intros x x' Hx; apply ready_ci_rel; assumption|exact H2]|].
+  intros [[[st3 rq2] ret2] p2] [[[st3' rq2'] ret2'] p2'] (H3 & -> & -> & ->).
+  destruct (ret2 || p2); [split; [apply Rs_flags2; [exact H3|apply (Rs_pending _ _ _ H3)|reflexivity]|reflexivity]|].
+  apply (bind_rel (R4 c)); [apply scan_req_rel; [intros x x' Hx; apply ready_pg_rel; assumption|exact H3]|].
+  intros [[[st4 rq3] ret3] p3] [[[st4' rq3'] ret3'] p3'] (H4 & -> & -> & ->).
+  split; [apply Rs_flags2; [exact H4|apply (Rs_pending _ _ _ H4)|reflexivity]|reflexivity].
+Qed.
+
+Lemma add_device_rel c now now' ok s st st' : Rs c st st' -> cong c now now' -> Rres (Rp c) (add_device now ok s st) (add_device now' ok s st').
+Proof.
+  intros H Hn. unfold add_device. destruct ok; [|split; [exact H|reflexivity]].
+  destruct (alloc_rel c st st' (new_entry 0 now) (new_entry 0 now') H (Re_new _ _ _ _ Hn)) as (Ha & Ho).
+  destruct (alloc st (new_entry 0 now)) as [st1 oid]. destruct (alloc st' (new_entry 0 now')) as [st1' oid']. cbn [fst snd] in Ha, Ho. subst oid'.
+  apply (bind_rel (Rs c)); [apply save_device_rel; exact Ha|]. intros st2 st2' H2.
+  split; [apply Rs_flags2; [exact H2|apply (Rs_pending _ _ _ H2)|reflexivity]|reflexivity].
+Qed.
+
+Lemma touch_rel c now now' s st st' : Rs c st st' -> cong c now now' -> Rres (Rs c) (touch now s st) (touch now' s st').
+Proof.
+  intros H Hn. unfold touch. rewrite (src_get_rel _ _ _ s H). destruct (src_get st s) as [[oid|]| |]; cbn [bind]; try exact I; [|exact H].
+  apply (bind_rel (Re c)); [apply deref_rel; exact H|]. intros e e' He. pose proof He as He0. re_destruct He0.
+  cbn [retime e_name e_nname e_lmt e_cireq e_nci e_pgreq e_npg]. rewrite (has_elapsed_cong c (e_lmt e) lm 60000 now now' Hlm Hn).
+  set (again := (e_name e =? 0) && (e_nname e >? 0) && has_elapsed (e_lmt e) 60000 now).
+  apply (bind_rel (Rs c)).
+  - apply update_rel; [exact H|]. apply (Re_with_req c e _ (if again then 0 else e_nname e) (e_cireq e) cr (e_nci e) (e_pgreq e) gr (e_npg e) now now' He); auto.
+  - intros st1 st1' H1. destruct again; [apply Rs_flags2; [exact H1|apply (Rs_pending _ _ _ H1)|reflexivity]|exact H1].
+Qed.
+
+Lemma handle_msg_rel c now now' ok m st st' : Rs c st st' -> cong c now now' -> Rres (Rp c) (handle_msg now ok m st) (handle_msg now' ok m st').
+Proof.
+  intros H Hn. unfold handle_msg. destruct (negb ((0 <=? b_src m) && (b_src m <? MaxBus))); [split; [exact H|reflexivity]|].
+  rewrite (src_get_rel _ _ _ (b_src m) H). destruct (src_get st (b_src m)) as [o| |]; cbn [bind]; try exact I.
+  apply (bind_rel (fun x x' : state * list req * bool => Rs c (fst (fst x)) (fst (fst x')) /\ snd (fst x') = snd (fst x) /\ snd x' = snd x)).
+  { destruct o; [cbn; auto|]. destruct (b_pgn m =? PGN_claim); [cbn; auto|].
+    apply (bind_rel (Rp c)); [apply add_device_rel; assumption|]. intros r r' (Hr1 & Hr2). cbn. auto. }
+  intros [[st1 rq0] stop] [[st1' rq0'] stop'] (H1 & Hq & Hs). cbn [fst snd] in H1, Hq, Hs. subst rq0' stop'.
+  destruct stop; [split; [exact H1|reflexivity]|].
+  apply (bind_rel (Rp c)).
+  - destruct (b_pgn m =? PGN_claim); [apply handle_claim_rel; assumption|].
+    destruct (b_pgn m =? PGN_prod); [apply (bind_rel (Rs c)); [apply handle_prod_rel; exact H1|intros a a' Ha; split; [exact Ha|reflexivity]]|].
+    destruct (b_pgn m =? PGN_conf); [apply (bind_rel (Rs c)); [apply handle_conf_rel; exact H1|intros a a' Ha; split; [exact Ha|reflexivity]]|].
+    destruct (b_pgn m =? PGN_list); [apply (bind_rel (Rs c)); [apply handle_list_rel; exact H1|intros a a' Ha; split; [exact Ha|reflexivity]]|].
+    apply handle_other_rel; assumption.
+  - intros [st2 rq1] [st2' rq1'] (H2 & Hq). cbn [fst snd] in H2, Hq. subst rq1'.
+    apply (bind_rel (Rs c)); [apply touch_rel; assumption|]. intros st3 st3' H3. split; [exact H3|reflexivity].
+Qed.
+
+Lemma run_log_rel c : forall h st st', Rs c st st' -> Rres eq (run_log h st) (run_log (shift c h) st').
+Proof.
+  induction h as [|[[now ok] m] h IH]; intros st st' H; cbn [run_log shift map]; [reflexivity|].
+  apply (bind_rel (Rp c)); [apply handle_msg_rel; [exact H|apply cong_shift]|]. intros x x' (Hx & Hq).
+  apply (bind_rel eq); [apply IH; exact Hx|]. intros l l' ->. cbn. rewrite Hq. reflexivity.
+Qed.
+
+Theorem pacing_shift : pacing_shift_stmt.
+Proof. intros h c. apply Rres_eq. apply (run_log_rel c). apply Rs_init. Qed.
+Print Assumptions pacing_shift.
+
+(* the D-20 witness as a history: claim of 0x1234 from source 10 at 5000, then a message of source 10 at 6500 and every 1001 ms *)
+Definition d20_hist : list event :=
+  (5000, true, {| b_pgn := 60928; b_src := 10; b_data := [52; 18; 0; 0; 0; 0; 0; 0] |}) ::
+  map (fun t => (t, true, {| b_pgn := 127250; b_src := 10; b_data := [0] |})) [6500; 7501; 8502; 9503; 10504].
